@@ -13,6 +13,7 @@ import (
 	"verif/cfg"
 	"verif/core"
 	"verif/oracle"
+	"verif/wl"
 )
 
 // C06 — output is a pure function of configuration and source (histories on shared instances).
@@ -324,6 +325,33 @@ func runC06(c *core.Ctx) {
 		}
 	}
 	c.Count("role_matrix_documents", int64(len(c06Payloads)*len(c06Roles)))
+	// twins of every length: for each length L (1..70 and the boundary sizes beyond) two payloads that agree in all but their
+	// last byte, in the roles whose value an instance might remember (destination, title, reference, heading, info string).
+	// The phases below convert them one after the other on the same long-lived instance; anything remembered under a key
+	// that loses a byte at some exact length confuses the twins of that length.
+	var lens []int
+	for l := 1; l <= 70; l++ {
+		lens = append(lens, l)
+	}
+	for _, l := range wl.BoundarySizes {
+		if l > 70 && l <= 1025 {
+			lens = append(lens, l)
+		}
+	}
+	twinRoles := []string{"[x](@P@)\n", "![x](</@P@>)\n", "[x](/u \"@P@\")\n", "[x][r]\n\n[r]: @P@ '@P@'\n", "# @P@\n", "``` @P@\ncode\n```\n"}
+	ntw := 0
+	for _, l := range lens {
+		for ri, role := range twinRoles {
+			if l > 70 && ri > 2 {
+				continue
+			}
+			for _, last := range []string{"1", "2"} {
+				s.docs = append(s.docs, []byte(strings.ReplaceAll(role, "@P@", strings.Repeat("u", l-1)+last)))
+				ntw++
+			}
+		}
+	}
+	c.Count("twin_payload_documents", int64(ntw))
 	nfixed := len(s.docs)
 	// corpus documents chosen by the run seed (same in every worker), then worker-specific soup
 	cr := newRand(core.SeedFor(c.Seed, "C06-docs", 0))
